@@ -144,6 +144,54 @@ fn check_writer_cli_newline_bytes(which: usize, scratch: &Scratch) -> Vec<Viol> 
     }
 }
 
+/// npy inputs whose *last data byte* is an ASCII whitespace byte, through the auto-detecting CLI
+/// reader (binary data must never be trimmed), and `view -O npy -o FILE` onto a longer existing file.
+fn check_cli_whitespace_tail_and_output_file(scratch: &Scratch) -> (u64, Vec<Viol>) {
+    let np = Spelling::numpy();
+    let mut viols = Vec::new();
+    let mut n = 0u64;
+    for ws in [0x20u8, 0x0a, 0x0d, 0x09, 0x0c] {
+        let cases: Vec<(&str, Vec<u8>, Vec<f64>)> = vec![
+            ("|u1", vec![7, 200, ws], vec![7.0, 200.0, ws as f64]),
+            (">u2", vec![0x01, 0x02, 0x10, ws], vec![258.0, (0x1000 + ws as u32) as f64]),
+            (">i4", vec![0, 0, 1, 0, 0, 0, 0, ws], vec![256.0, ws as f64]),
+            ("<f8", [1.5f64.to_le_bytes().to_vec(), f64::from_bits((ws as u64) << 56 | 0x0010_0000_0000_0000).to_le_bytes().to_vec()].concat(), vec![1.5, f64::from_bits((ws as u64) << 56 | 0x0010_0000_0000_0000)]),
+        ];
+        for (descr, data, expect) in cases {
+            n += 1;
+            let bytes = synth(1, &dict_text(descr, false, &[expect.len()], &np), &data);
+            let o = run_sfs(&["view", "-O", "npy"], Stdin::Bytes(&bytes), scratch);
+            let ok = o.ok() && check_written(&o.stdout, &[expect.len()], &expect).is_ok();
+            if !ok {
+                viols.push((
+                    format!("C15|cli|read-whitespace-tail|{descr}"),
+                    format!("sfs view -O npy on a {descr} file whose last data byte is {ws:#04x}: {} {}; expected values {expect:?}", o.status_str(), o.stderr_str().trim()),
+                    J::obj([("kind", J::s("c15-ws-tail")), ("file_hex", J::s(hex(&bytes))), ("expect", J::f64s(&expect))]),
+                ));
+            }
+        }
+    }
+    // -o onto a longer existing file: the file must be exactly what stdout would carry
+    for (shape, stale_len) in [(vec![3usize], 4000usize), (vec![2, 2], 200), (vec![5], 129)] {
+        n += 1;
+        let x = RefArray::from_fn(&shape, |f, _| f as f64 + 0.5);
+        let input = text_of(&x);
+        let to_stdout = run_sfs(&["view", "-O", "npy"], Stdin::Bytes(input.as_bytes()), scratch);
+        let path = scratch.file(".stale.npy", &vec![0x41u8; stale_len]);
+        let o = run_sfs(&["view", "-O", "npy", "-o", path.to_str().unwrap()], Stdin::Bytes(input.as_bytes()), scratch);
+        let written = std::fs::read(&path).unwrap_or_default();
+        let _ = std::fs::remove_file(&path);
+        if !(o.ok() && to_stdout.ok() && written == to_stdout.stdout && check_written(&written, &shape, &x.data).is_ok()) {
+            viols.push((
+                "C15|cli|output-file-not-replaced".to_string(),
+                format!("sfs view -O npy -o FILE (FILE existed with {stale_len} bytes) for shape {shape:?}: {}; FILE now has {} bytes, stdout of the same command has {}", o.status_str(), written.len(), to_stdout.stdout.len()),
+                J::obj([("kind", J::s("c15-out")), ("shape", J::usizes(&shape)), ("stale_len", J::u(stale_len))]),
+            ));
+        }
+    }
+    (n, viols)
+}
+
 // ---------------------------------------------------------------------------------------------
 
 #[derive(Clone)]
@@ -201,6 +249,9 @@ fn eval_read(c: &ReadCase) -> Option<Viol> {
             ("version", J::Int(c.version as i64)),
             ("spelling", J::s(c.spelling.describe())),
             ("file_hex", J::s(hex(&bytes))),
+            ("ty", J::s(c.ty)),
+            ("expect_shape", J::usizes(&shape)),
+            ("expect_bits", J::Arr(expect.iter().map(|b| J::s(format!("{b:016x}"))).collect())),
         ])
     };
     let class = format!("{}{},v{}", c.order, c.ty, c.version);
@@ -601,6 +652,20 @@ pub fn run(tier: Tier) -> i32 {
         exhaustive: true,
         extra: vec![],
     });
+    {
+        let (n, v) = check_cli_whitespace_tail_and_output_file(&scratch);
+        for (k, w, j) in v {
+            rep.violation(k, w, j);
+        }
+        rep.part(Part {
+            name: "cli: whitespace bytes at the end of binary data; -o onto an existing file".into(),
+            evaluations: n,
+            nontrivial: n,
+            note: "|u1, >u2, >i4 and <f8 files whose last data byte is 0x20/0x0a/0x0d/0x09/0x0c through `sfs view -O npy`; `view -O npy -o FILE` onto a longer existing FILE must leave exactly the bytes it prints to stdout".into(),
+            exhaustive: true,
+            extra: vec![],
+        });
+    }
     let res = par_map(4, |i| check_writer_cli_newline_bytes(i, &scratch));
     for v in res.into_iter().flatten() {
         rep.violation(v.0, v.1, v.2);
@@ -653,12 +718,34 @@ pub fn replay(case: &J) -> Option<Vec<String>> {
             v.extend(eval_corpus(name, Some(&scratch)));
             Some(fmt(v))
         }
-        "c15-read" | "c15-reject" => {
+        "c15-reject" => {
             let bytes = crate::json::unhex(case.get("file_hex")?.as_str()?)?;
             let r = catch(|| Array::read_npy(&bytes[..]).map(|a| (a.shape().to_vec(), a.as_slice().to_vec())));
-            println!("replay: read_npy -> {r:?}");
-            // the verdict needs the expectation, which is recomputed by the full check
-            None
+            Some(match r {
+                Ok(Err(_)) => vec![],
+                other => vec![format!("C15|lib|reject :: read_npy returned {other:?}, expected an error")],
+            })
+        }
+        "c15-read" => {
+            let bytes = crate::json::unhex(case.get("file_hex")?.as_str()?)?;
+            let ty = case.get("ty")?.as_str()?.to_string();
+            let shape = case.get("expect_shape")?.as_usizes()?;
+            let bits: Vec<u64> = case.get("expect_bits")?.as_arr()?.iter().filter_map(|b| b.as_str().and_then(|h| u64::from_str_radix(h, 16).ok())).collect();
+            let shared = std::sync::Arc::new(bytes.clone());
+            let mut out = Vec::new();
+            let mut readers: Vec<(String, Result<(Vec<usize>, Vec<f64>), String>)> = Vec::new();
+            readers.push(("one piece".into(), catch(|| Array::read_npy(&bytes[..]).map(|a| (a.shape().to_vec(), a.as_slice().to_vec())).map_err(|e| e.to_string())).unwrap_or_else(|p| Err(format!("panic: {p}")))));
+            for k in [1usize, 7, 13] {
+                let (reader, _log) = crate::seam::ChunkedReader::new(shared.clone(), crate::seam::Schedule::periodic(k));
+                readers.push((format!("{k}-byte chunks"), catch(move || Array::read_npy(reader).map(|a| (a.shape().to_vec(), a.as_slice().to_vec())).map_err(|e| e.to_string())).unwrap_or_else(|p| Err(format!("panic: {p}")))));
+            }
+            for (how, r) in readers {
+                match r {
+                    Ok((s, v)) if s == shape && v.len() == bits.len() && v.iter().zip(&bits).all(|(g, e)| bits_match(&ty, *g, *e)) => {}
+                    other => out.push(format!("C15|lib|read :: read in {how}: {other:?}, expected shape {shape:?} bits {bits:x?}")),
+                }
+            }
+            Some(out)
         }
         _ => None,
     }
